@@ -68,9 +68,10 @@ def getStats (j : Json) : Except String (Option Stats) := do
   let ts ← getArr j "tasks"
   let mut tasks : List TaskM := []
   for t in ts do
-    let name ← getStr t "name"
+    let task ← getOptStr t "task"
+    let operation ← getStr t "operation"
     match (← getScope t) with
-    | some sc => tasks := ⟨name, sc⟩ :: tasks
+    | some sc => tasks := ⟨task, operation, sc⟩ :: tasks
     | none => return none
   let some lists ← getPairs j "lists" getEntries | return none
   return some ⟨glob, tasks.reverse, lists⟩
